@@ -103,6 +103,20 @@ const PROCESSING_WINDOW_SIZE: usize = 1024;
 pub type BoxedExecutor = BoxStream<'static, Result<DataChunk>>;
 
 pub fn build(optimizer: Optimizer, storage: Arc<impl Storage>, plan: &RecExpr) -> BoxedExecutor {
+    // The plan was bound against the catalog as it was then. If another session has dropped one
+    // of its tables since, its columns can no longer be typed: fail the statement instead of
+    // panicking on them while the executors are built.
+    for node in plan.as_ref() {
+        if let Expr::Column(column) = node
+            && optimizer.catalog().get_column(column).is_none()
+        {
+            let error = Error::from(crate::catalog::CatalogError::NotFound(
+                "column",
+                column.to_string(),
+            ));
+            return futures::stream::once(async move { Err(error) }).boxed();
+        }
+    }
     Builder::new(optimizer, storage, plan).build()
 }
 
